@@ -32,6 +32,11 @@ func (tc *Config) init() {
 func (prog *Progress) init() {
 	if prog.Cfg == nil {
 		prog.Cfg = &Config{}
+	} else if prog.Cfg.Ctx == nil || prog.Cfg.LinkTargetNodePrototypeChooser == nil {
+		// Defaults are filled into a private copy: the caller's Config may be
+		// shared with other traversals running at the same time.
+		cfg := *prog.Cfg
+		prog.Cfg = &cfg
 	}
 	prog.Cfg.init()
 	if prog.Cfg.LinkVisitOnlyOnce {
